@@ -260,3 +260,108 @@ Proof.
   - intros E. rewrite <- E. symmetry. exact S2.
   - intros E. apply (proj1 (NoDup_nth (unmasked m) d) (NoDup_unmasked m)); auto. rewrite S2. exact E.
 Qed.
+
+(* ================================================================== 3. the scatter loops, gathered *)
+Notation RK := (list (list R)).
+Definition kcells (K : RK) : list (Z * Z) := list_prod (seqZ 0 (rows K)) (seqZ 0 (cols K)).
+(* pixel that source p feeds through kernel cell ij / pixel that feeds target t through cell ab *)
+Definition tgt (K : RK) (p : px) (ij : Z * Z) : px := (fst p - rows K / 2 + fst ij, snd p - cols K / 2 + snd ij).
+Definition src (K : RK) (t : px) (ab : Z * Z) : px := (fst t + rows K / 2 - fst ab, snd t + cols K / 2 - snd ab).
+Definition kval (K : RK) (ij : Z * Z) : R := getZ (@zero ROps) K ij.
+Definition scale (a : R) (tk : nat * R) : nat * R := (fst tk, (a * snd tk)%R).
+Definition cell (m : mask) (K : RK) (p : px) (ij : Z * Z) : list (nat * R) :=
+  let mi := mask_index_array m in let q := tgt K p ij in
+  if inframe mi q then
+    if (getZ (-1) mi q >=? 0) && negb (getZ true m q) then [(Z.to_nat (getZ (-1) mi q), kval K ij)] else []
+  else [].
+
+Lemma tgt_src K p t ij : px_eqb (tgt K p ij) t = px_eqb p (src K t ij).
+Proof. unfold px_eqb, tgt, src. cbn [fst snd]. lia. Qed.
+
+Lemma hits_app k l1 l2 : hits k (l1 ++ l2) = hits k l1 ++ hits k l2.
+Proof. unfold hits. now rewrite filter_app, map_app. Qed.
+Lemma hits_flat_map {A} k (f : A -> list (nat * R)) l : hits k (flat_map f l) = flat_map (fun x => hits k (f x)) l.
+Proof. induction l as [|a l IH]; cbn [flat_map]; auto. now rewrite hits_app, IH. Qed.
+Lemma sumR_flat_map {A} (f : A -> list R) l : sumR (flat_map f l) = sumR (map (fun x => sumR (f x)) l).
+Proof. induction l as [|a l IH]; cbn [flat_map map sumR]; auto. now rewrite sumR_app, IH. Qed.
+Lemma flat_map_map {A B C} (g : A -> B) (f : B -> list C) l : flat_map f (map g l) = flat_map (fun x => f (g x)) l.
+Proof. induction l as [|a l IH]; cbn; auto. now rewrite IH. Qed.
+
+Lemma frame_cells m K p : @frame_at ROps m (mask_index_array m) K p = flat_map (cell m K p) (kcells K).
+Proof.
+  unfold frame_at, kcells.
+  rewrite (flat_prod (fun i j => cell m K p (i, j))). apply flat_map_ext. now intros [i j].
+Qed.
+
+Lemma nth_unmasked m k d : (k < length (unmasked m))%nat -> mz m (nth k (unmasked m) d) = false.
+Proof. intros H. apply in_unmasked. now apply nth_In. Qed.
+
+Lemma cell_hits m K p ij a k : rectb m = true -> (k < length (unmasked m))%nat ->
+  sumR (hits k (map (scale a) (cell m K p ij))) =
+  if px_eqb (tgt K p ij) (nth k (unmasked m) (0, 0)) then (a * kval K ij)%R else 0%R.
+Proof.
+  intros R Hk. unfold cell. cbv zeta. rewrite inframe_midx.
+  pose proof (nth_unmasked m k (0, 0) Hk) as Ht. apply mz_false in Ht. destruct Ht as [Ft Gt].
+  set (t := nth k (unmasked m) (0, 0)) in *. set (q := tgt K p ij).
+  destruct (inframe m q) eqn:F.
+  - pose proof (midx_spec m q (0, 0) R F) as S.
+    destruct (getZ true m q) eqn:G.
+    + rewrite andb_false_r. cbn. destruct (px_eqb q t) eqn:E; [|reflexivity].
+      apply px_eqb_eq in E. congruence.
+    + destruct S as [S0 [S1 S2]].
+      replace (getZ (-1) (mask_index_array m) q >=? 0) with true by lia. cbn [andb negb map]. unfold scale, hits. cbn [filter fst snd].
+      assert (Q : mz m q = false) by (apply mz_false; auto).
+      pose proof (midx_is_position m q k (0, 0) R Q Hk) as P. fold t in P.
+      destruct (Nat.eqb (Z.to_nat (getZ (-1) (mask_index_array m) q)) k) eqn:E.
+      * apply Nat.eqb_eq in E. apply P in E. rewrite E, px_eqb_refl. cbn. lra.
+      * destruct (px_eqb q t) eqn:E2; [|reflexivity].
+        apply px_eqb_eq in E2. apply P in E2. apply Nat.eqb_neq in E. contradiction.
+  - cbn. destruct (px_eqb q t) eqn:E; [|reflexivity]. apply px_eqb_eq in E. congruence.
+Qed.
+
+Lemma frame_hits m K p a k : rectb m = true -> (k < length (unmasked m))%nat ->
+  sumR (hits k (map (scale a) (@frame_at ROps m (mask_index_array m) K p))) =
+  sumR (map (fun ij => if px_eqb (tgt K p ij) (nth k (unmasked m) (0, 0)) then (a * kval K ij)%R else 0%R) (kcells K)).
+Proof.
+  intros R Hk. rewrite frame_cells, map_flat_map, hits_flat_map, sumR_flat_map.
+  apply sumR_map_ext. intros ij _. now apply cell_hits.
+Qed.
+
+Lemma entries_scale (v : list R) frames :
+  @entries ROps v frames = flat_map (fun vf => map (scale (fst vf)) (snd vf)) (combine v frames).
+Proof. reflexivity. Qed.
+
+Lemma entries_hits m K (S : list px) (v : list R) k : rectb m = true -> (k < length (unmasked m))%nat ->
+  sumR (hits k (@entries ROps v (map (@frame_at ROps m (mask_index_array m) K) S))) =
+  sumR (map (fun ap => sumR (map (fun ij =>
+          if px_eqb (tgt K (snd ap) ij) (nth k (unmasked m) (0, 0)) then (fst ap * kval K ij)%R else 0%R) (kcells K)))
+        (combine v S)).
+Proof.
+  intros R Hk. rewrite entries_scale, combine_map_r, flat_map_map, hits_flat_map, sumR_flat_map.
+  apply sumR_map_ext. intros [a p] _. cbn [fst snd]. now apply frame_hits.
+Qed.
+
+(* every scatter target is a valid slim index *)
+Lemma frame_targets m K p : rectb m = true ->
+  Forall (fun e => (fst e < length (unmasked m))%nat) (@frame_at ROps m (mask_index_array m) K p).
+Proof.
+  intros R. rewrite frame_cells. apply Forall_flat_map, Forall_forall. intros ij _.
+  unfold cell. cbv zeta. rewrite inframe_midx. set (q := tgt K p ij).
+  destruct (inframe m q) eqn:F; [|constructor].
+  pose proof (midx_spec m q (0, 0) R F) as S.
+  destruct (getZ true m q) eqn:G; [rewrite andb_false_r; constructor|].
+  destruct ((getZ (-1) (mask_index_array m) q >=? 0) && negb false); constructor; [|constructor].
+  cbn [fst]. tauto.
+Qed.
+Lemma entries_targets (v : list R) frames n :
+  Forall (Forall (fun e : nat * R => (fst e < n)%nat)) frames ->
+  Forall (fun e => (fst e < n)%nat) (@entries ROps v frames).
+Proof.
+  intros H. rewrite entries_scale. apply Forall_flat_map, Forall_forall. intros [a fr] Hin.
+  apply in_combine_r in Hin. rewrite Forall_forall in H. specialize (H fr Hin). cbn [fst snd].
+  rewrite Forall_forall in *. intros e He. apply in_map_iff in He. destruct He as [e' [<- He']].
+  cbn. now apply H.
+Qed.
+Lemma frames_targets m K (S : list px) : rectb m = true ->
+  Forall (Forall (fun e : nat * R => (fst e < length (unmasked m))%nat)) (map (@frame_at ROps m (mask_index_array m) K) S).
+Proof. intros R. apply Forall_forall. intros fr H. apply in_map_iff in H. destruct H as [p [<- _]]. now apply frame_targets. Qed.
